@@ -1,5 +1,6 @@
 import Driver.Proto
 import Gotree.Model.C08
+import Gotree.Model.C08HM
 import Gotree.Spec.C08
 
 namespace Gotree.Driver.C08
@@ -51,6 +52,7 @@ def pairTags (r c : T) (tips sc : Bool) : List String :=
   tagIf tips "tips" ++ tagIf sc "shortcut" ++ tagIf hyp "hyp-unrooted" ++ tagIf (good r && good c) "hyp-good" ++
   tagIf (hyp && !(good r && good c)) "UNROOTED-NOT-GOOD" ++ tagIf st "sametaxa" ++
   tagIf (!st) "difftaxa" ++ tagIf (r.rooted || c.rooted) "rooted" ++
+  tagIf (r.kids.length == 1 || c.kids.length == 1) "root-is-tip" ++
   tagIf (!(r.noSingle && c.noSingle)) "singles" ++
   tagIf (maxDeg r > 3 || maxDeg c > 3) "multif" ++
   tagIf (r.tipNames.length ≥ 4) "ge4taxa" ++
@@ -91,6 +93,9 @@ def oracleCmp (r c : T) (tips sc : Bool) (o : Out Stats) : Option String :=
 
 def tieCmp (r c : T) (tips sc : Bool) (o : Out Stats) : Option String :=
   let m := compare r c tips sc
+  -- the same record through C04's ReinitIndexes and hash map (FNV-1a, Go's rehash policy)
+  if compareHM C04.fnv1a (C04.goPolicy 0.75) r c tips sc != .res m then
+    some "hash-map model differs from the association-list model" else
   match o with
   | .panic _ => some "implementation panicked"
   | .res out =>
@@ -128,6 +133,8 @@ def oracleW (r c : T) (tips sc : Bool) (o : Out WStats) : Option String :=
 
 def tieW (r c : T) (tips sc : Bool) (o : Out WStats) : Option String :=
   let m := compareWeighted r c tips sc
+  if compareWeightedHM C04.fnv1a (C04.goPolicy 0.75) r c tips sc != .res m then
+    some "hash-map model differs from the association-list model" else
   match o with
   | .panic _ => some "implementation panicked"
   | .res out =>
@@ -141,10 +148,10 @@ def tieW (r c : T) (tips sc : Bool) (o : Out WStats) : Option String :=
     | .refErr, .refErr => none
     | _, _ => some "model outcome class differs"
 
-/-- the region the property speaks about: trees of the property on the same taxa, or
-    (indexable) trees on differing taxa -/
-def inRegion (r c : T) : Bool :=
-  (r.uniqueTips && c.uniqueTips) && (!(sameTaxa r c) || (unrootedOK r && unrootedOK c))
+/-- where the model is tied to the code: every pair of trees with unique tip names.  On the
+    trees of the property the oracle applies as well; on rooted trees and trees with
+    single-child nodes (theorems `compare_any`, `compare_self`) the tie alone. -/
+def inRegion (r c : T) : Bool := r.uniqueTips && c.uniqueTips
 
 /-- first failure of a list of labelled checks -/
 def firstFail : List (String × Option String) → Option String
@@ -160,7 +167,7 @@ def approxE (printed exact : Rat) : Bool :=
   -- `%E` prints 7 significant digits
   absR (printed - exact) * 1000000 ≤ absR exact
 
-def handle (op : String) (f : List String) : Verdict :=
+def handleCore (op : String) (f : List String) : Verdict :=
   match op, f with
   | "cmp", [tipsS, scS, dR, dC, dR2, dC2, o1, o2, o3] =>
     match parseBool tipsS, parseBool scS, T.undump dR, T.undump dC, T.undump dR2, T.undump dC2,
@@ -262,8 +269,7 @@ def handle (op : String) (f : List String) : Verdict :=
               ⟨.oracle, tags, "CommonEdges (" ++ toString t1 ++ "," ++ toString co ++ ") but set algebra gives (" ++
                 toString sa ++ "," ++ toString sb ++ ")"⟩
             else if m != .ok (t1, co) then
-              (if unrootedOK a && unrootedOK b then ⟨.tie, tags, "model CommonEdges differs"⟩
-               else ⟨.pass, "fidelity-diff-outside-hyp" :: tags, "model CommonEdges differs"⟩)
+              ⟨.tie, tags, "model CommonEdges differs"⟩
             else ⟨.pass, tags, ""⟩
           | _, _ => bad "C08.common numbers"
         | _ => if o == "err" then ⟨.oracle, tags, "CommonEdges: same taxa rejected"⟩ else bad "C08.common outcome"
@@ -291,7 +297,27 @@ def handle (op : String) (f : List String) : Verdict :=
       let hyp := unrootedOK r && cs.all unrootedOK
       let tags := ["cli", "cli-" ++ mode] ++ tagIf tips "tips" ++ tagIf (!allSame) "difftaxa" ++ tagIf hyp "hyp-unrooted" ++
         tagIf (hyp && cs.any fun c => sameTaxa r c && (let (a, b, d) := counts r c tips; b > 0 && (a > 0 || d > 0))) "nontrivial"
-      if !hyp then ⟨.pass, "skip-hyp" :: tags, ""⟩ else
+      -- the model's records print the same rows (used as the tie; alone, outside the hypotheses)
+      let mrow (c : T) (row : List String) : Bool :=
+        match mode, row with
+        | "plain", [_, x, y, z] =>
+          (match compare r c tips false with
+           | .ok s => x.toInt? == some s.tree1 && y.toInt? == some s.common && z.toInt? == some s.tree2
+           | _ => false)
+        | "rf", [x] => (match compare r c tips false with | .ok s => x.toInt? == some (rf s) | _ => false)
+        | "binary", [_, x] => (match compare r c tips true with | .ok s => parseBool x == some s.same | _ => false)
+        | "wbinary", [_, x] => (match compareWeighted r c tips true with | .ok s => parseBool x == some s.same | _ => false)
+        | "weighted", [_, x, y] =>
+          (match compareWeighted r c tips false, parseRat? x, parseRat? y with
+           | .ok w, some pw, some pk => approxE pw (wrf w) && decide (absR (pk * pk - kf2 w) * 200000 ≤ kf2 w)
+           | _, _, _ => false)
+        | _, _ => false
+      if !hyp then
+        -- rooted trees / single-child nodes: tie only
+        (if r.uniqueTips && cs.all (·.uniqueTips) && allSame && outcome == "ok" && rows.length == cs.length then
+           (if (List.zip cs rows).all fun (c, row) => mrow c row then ⟨.pass, "tie-only" :: tags, ""⟩
+            else ⟨.tie, "tie-only" :: tags, "model prints other rows (trees outside the property's hypotheses)"⟩)
+         else ⟨.pass, "skip-hyp" :: tags, ""⟩) else
       -- the rows expected: one per compared tree up to (excluding) the first one on other taxa
       let good := cs.takeWhile fun c => sameTaxa r c
       if allSame && outcome != "ok" then ⟨.oracle, tags, "command failed on trees with the same taxa: " ++ outcome⟩
@@ -341,24 +367,91 @@ def handle (op : String) (f : List String) : Verdict :=
         match fails with
         | m :: _ => ⟨.oracle, tags, m⟩
         | [] =>
-          -- tie: the model's records print the same rows
-          let mrow (c : T) (row : List String) : Bool :=
-            match mode, row with
-            | "plain", [_, x, y, z] =>
-              (match compare r c tips false with
-               | .ok s => x.toInt? == some s.tree1 && y.toInt? == some s.common && z.toInt? == some s.tree2
-               | _ => false)
-            | "rf", [x] => (match compare r c tips false with | .ok s => x.toInt? == some (rf s) | _ => false)
-            | "binary", [_, x] => (match compare r c tips true with | .ok s => parseBool x == some s.same | _ => false)
-            | "wbinary", [_, x] => (match compareWeighted r c tips true with | .ok s => parseBool x == some s.same | _ => false)
-            | "weighted", [_, x, y] =>
-              (match compareWeighted r c tips false, parseRat? x, parseRat? y with
-               | .ok w, some pw, some pk => approxE pw (wrf w) && decide (absR (pk * pk - kf2 w) * 200000 ≤ kf2 w)
-               | _, _, _ => false)
-            | _, _ => false
           if (List.zip good rows).all fun (c, row) => mrow c row then ⟨.pass, tags, ""⟩
           else ⟨.tie, tags, "model prints other rows"⟩
     | _, _, _ => bad "C08.cli fields"
+  | "cliedges", [dR, dC, outcome, rowsS] =>
+    match T.undump dR, T.undump dC with
+    | some r, some c =>
+      let rows := (splitTerm "|" rowsS).map (·.splitOn ";")
+      let hyp := unrootedOK r && unrootedOK c
+      let st := sameTaxa r c
+      let tags := ["cli", "cli-edges"] ++ tagIf hyp "hyp-unrooted" ++ tagIf (!st) "difftaxa" ++
+        tagIf (hyp && st && (let (a, b, _) := counts r c false; a > 0 && b > 0)) "nontrivial"
+      if !hyp then ⟨.pass, "skip-hyp" :: tags, ""⟩
+      else if !st then
+        (if outcome == "error" then ⟨.pass, tags, ""⟩
+         else ⟨.oracle, tags, "compare edges: tree on differing taxa not rejected with an error: " ++ outcome⟩)
+      else if outcome != "ok" then ⟨.oracle, tags, "compare edges failed on trees with the same taxa: " ++ outcome⟩
+      else if rows.length != r.splits.length then
+        ⟨.oracle, tags, "compare edges printed " ++ toString rows.length ++ " rows for " ++ toString r.splits.length ++ " branches"⟩
+      else
+        let all := r.tipNames
+        let sc := S true c
+        let expect (s : SplitE) : Bool × Nat × Bool :=
+          (s.tip, lightSize all (canonSide all s.below), sc.contains (canonSide all s.below))
+        let bad := (List.zip (List.range rows.length) (List.zip r.splits rows)).filterMap fun (i, s, row) =>
+          match row with
+          | [tid, brid, term, td, found, tr] =>
+            let (et, ed, ef) := expect s
+            if tid != "0" || brid.toNat? != some i then some ("row " ++ toString i ++ ": ids")
+            else if parseBool term != some et then some ("row " ++ toString i ++ ": terminal " ++ term)
+            else if td.toNat? != some ed then some ("row " ++ toString i ++ ": topodepth " ++ td ++ " expected " ++ toString ed)
+            else if parseBool found != some ef then some ("row " ++ toString i ++ ": found=" ++ found ++ " but the split is " ++ (if ef then "" else "not ") ++ "in the compared tree")
+            else if (tr == "0") != ef then some ("row " ++ toString i ++ ": transfer distance " ++ tr ++ " with found=" ++ found)
+            else none
+          | _ => some ("row " ++ toString i ++ ": shape")
+        match bad with
+        | m :: _ => ⟨.oracle, tags, "compare edges " ++ m⟩
+        | [] =>
+          let mrows := edgeRows r c
+          let same := (List.zip mrows rows).all fun ((mt, md, mf), row) =>
+            match row with
+            | [_, _, term, td, found, _] => parseBool term == some mt && td.toNat? == some md && parseBool found == some mf
+            | _ => false
+          if same then ⟨.pass, tags, ""⟩ else ⟨.tie, tags, "model prints other compare-edges rows"⟩
+    | _, _ => bad "C08.cliedges fields"
+  | "clitips", [mode, dR, dCs, outcome, rowsS] =>
+    match T.undump dR, (splitTerm "|" dCs).mapM T.undump with
+    | some r, some cs =>
+      let rows := (splitTerm "|" rowsS).map (·.splitOn ";")
+      let cs := if mode == "f" then cs.take 1 else cs
+      let tags := ["cli", "cli-tips", "cli-tips-" ++ mode] ++
+        tagIf (cs.any fun c => !sameTaxa r c) "difftaxa" ++ tagIf (cs.any fun c => !sameTaxa r c) "nontrivial"
+      if !(r.uniqueTips && cs.all (·.uniqueTips)) then ⟨.pass, "skip-dupnames" :: tags, ""⟩
+      else if outcome != "ok" then ⟨.oracle, tags, "compare tips failed: " ++ outcome⟩
+      else
+        let names (id : Nat) (k : String) : List String :=
+          sortStrings (rows.filterMap fun row => match row with
+            | [i, kk, n] => if i.toNat? == some id && kk == k then unescape n else none
+            | _ => none)
+        let check (id : Nat) (c : T) (f : List String → List String → List String × List String × Nat) : Option String :=
+          let (lt, gt, eq) := f r.tipNames c.tipNames
+          if names id "lt" != sortStrings lt then some ("tree " ++ toString id ++ ": '<' names " ++ showStrList (names id "lt"))
+          else if names id "gt" != sortStrings gt then some ("tree " ++ toString id ++ ": '>' names " ++ showStrList (names id "gt"))
+          else if names id "eq" != [toString eq] then some ("tree " ++ toString id ++ ": '=' " ++ showStrList (names id "eq") ++ " expected " ++ toString eq)
+          else none
+        let spec (a b : List String) : List String × List String × Nat :=
+          (a.filter (fun x => !b.contains x), b.filter (fun x => !a.contains x), (a.filter (fun x => b.contains x)).length)
+        let idx := List.range cs.length
+        let nrows := rows.length
+        let expectRows := (cs.map fun c => let (lt, gt, _) := spec r.tipNames c.tipNames; lt.length + gt.length + 1).sum
+        if nrows != expectRows then ⟨.oracle, tags, "compare tips printed " ++ toString nrows ++ " lines, expected " ++ toString expectRows⟩
+        else match (List.zip idx cs).filterMap fun (i, c) => check i c spec with
+        | m :: _ => ⟨.oracle, tags, "compare tips " ++ m⟩
+        | [] =>
+          match (List.zip idx cs).filterMap fun (i, c) => check i c tipsDiff with
+          | m :: _ => ⟨.tie, tags, "model: " ++ m⟩
+          | [] => ⟨.pass, tags, ""⟩
+    | _, _ => bad "C08.clitips fields"
   | _, _ => bad ("C08: unknown op " ++ op)
+
+/-- the comparison cases carry, as a last field, the number of worker goroutines used -/
+def handle (op : String) (f : List String) : Verdict :=
+  if (op == "cmp" || op == "wcmp") && f.length == 10 then
+    let v := handleCore op (f.take 9)
+    let thr := f.getLast?.getD ""
+    { v with tags := v.tags ++ ["workers-" ++ thr] ++ tagIf (thr != "1") "multi-worker" }
+  else handleCore op f
 
 end Gotree.Driver.C08
